@@ -13,6 +13,25 @@ OBLIGATIONS = [
        what='OASIS unsigned/signed/2-/3-/g-delta decoders equal a 128-bit reference interpreter of the grammar on arbitrary byte strings (value, consumed length); values that do not fit raise the Overflow flag',
        bound='every byte string whose integer encodings are 1..11 bytes long each (non-minimal encodings included)',
        variants=[{'OP': k} for k in range(5)], unwind=13, timeout=300),
+    Ob('gds_real_roundtrip', 'C19/gds_real.c', [P + '22gdsii_real_from_doubleEd', P + '20gdsii_real_to_doubleEm'],
+       what='gdsii_real_to_double(gdsii_real_from_double(v)) within 1 ulp of v, same sign, for all doubles in the format range; zero; finiteness of every decoded pattern',
+       bound='all doubles with 2^-256 <= |v| < 2^252 (= 16^-64 .. 16^63), under the libm contracts for log2/pow/exp2/ceil',
+       rename={'log2': 'my_log2', 'ceil': 'my_ceil', 'exp2': 'my_exp2', 'pow': 'my_pow'},
+       variants=[{'OP': 0}, {'OP': 1}], unwind=2, timeout=300, retry_defines=['-DLOG2_TIGHT']),
+    Ob('oas_real_roundtrip', 'C19/oas_real.c', [P + '16oasis_write_realERNS_11OasisStreamEd', P + '15oasis_read_realERNS_11OasisStreamE'],
+       what='oasis_read_real(oasis_write_real(v)) == v bit for bit, whichever form (integer, reciprocal, float64) the writer picks',
+       bound='every finite double; IEEE division as an uninterpreted sign-symmetric function (proof holds for any such function)',
+       rename={'trunc': 'my_trunc', 'fabs': 'my_fabs', '__fdiv': 'uf_div'},
+       variants=[{'OP': 0}], unwind=12, timeout=600, mem_gb=12, fallback='oas_real_roundtrip_bitdiv'),
+    Ob('oas_real_roundtrip_bitdiv', 'C19/oas_real.c', [P + '16oasis_write_realERNS_11OasisStreamEd', P + '15oasis_read_realERNS_11OasisStreamE'],
+       what='same obligation with the bit-precise IEEE divider: used to obtain a replayable counterexample when the abstract one does not reproduce',
+       bound='every finite double', rename={'trunc': 'my_trunc', 'fabs': 'my_fabs', '__fdiv': 'uf_div'}, defines={'REAL_DIV': 1},
+       variants=[{'OP': 0}], unwind=12, timeout=400, mem_gb=12, tier='fallback'),
+    Ob('oas_real_forms_vs_reference', 'C19/oas_real.c', [P + '23oasis_read_real_by_typeERNS_11OasisStreamENS_13OasisDataTypeE'],
+       what='oasis_read_real_by_type for each real type 0..7 equals the reference reading (nearest double of n, 1/n, a/b; float32/float64 little endian), length consumed',
+       bound='integers encoded in 1..3 bytes each (n < 2^21); all finite float32 / float64 patterns; IEEE division uninterpreted',
+       rename={'trunc': 'my_trunc', 'fabs': 'my_fabs', '__fdiv': 'uf_div'},
+       variants=[{'OP': 1, 'TYPE': t} for t in range(8)], unwind=9, timeout=300),
 ]
 BOUNDS = 'see obligations'
 OUTSIDE = ''
